@@ -652,8 +652,12 @@ func (a *Agent) RequestCompleted(RequestID uint32) {
 }
 
 func (a *Agent) AddJobToQueue(job Job) []Job {
-	// store the RequestID									
-	a.AddRequest(job)
+	// store the RequestID. jobs the teamserver queues on its own (socks / port forward
+	// relay traffic) carry no request id: they must not make 0 a known request id,
+	// or the agent could send any callback it likes with RequestID 0
+	if job.RequestID != 0 {
+		a.AddRequest(job)
+	}
 	// if it's a pivot agent then add the job to the parent
 	if a.Pivots.Parent != nil {
 		//logger.Debug("Prepare command for pivot demon: " + a.NameID)
